@@ -85,7 +85,7 @@ class RollingReduction(Expr):
         return {} if self.operand("kwargs") is None else self.operand("kwargs")
 
     def _simplify_up(self, parent, dependents):
-        if isinstance(parent, Projection):
+        if isinstance(parent, Projection) and self.ndim == 2:
             by = self.groupby_kwargs.get("by", []) if self.groupby_kwargs else []
             by_columns = by if not isinstance(by, Expr) else []
             columns = determine_column_projection(self, parent, dependents, by_columns)
@@ -99,12 +99,15 @@ class RollingReduction(Expr):
             ):
                 # Selecting a single column as a Series
                 return type(self)(self.frame[columns[0]], *self.operands[1:])
+            new = {"frame": self.frame[columns]}
+            if isinstance(self.groupby_slice, list):
+                # groupby(...)[slice] must not refer to the columns that are gone
+                new["groupby_slice"] = [c for c in self.groupby_slice if c in columns]
+                if not new["groupby_slice"]:
+                    return
             # Otherwise keep the selection on top: it determines the order of the
             # columns and whether the result is a Series or a DataFrame
-            return type(parent)(
-                type(self)(self.frame[columns], *self.operands[1:]),
-                *parent.operands[1:],
-            )
+            return type(parent)(self.substitute_parameters(new), *parent.operands[1:])
 
     @property
     def _is_blockwise_op(self):
